@@ -826,7 +826,7 @@ func run(r *core.Run) {
 	r.Bound("malformed_contexts", len(malContexts))
 	r.Bound("malformed_schemas", len(mals))
 	r.Bound("special_schemas", len(sps))
-	r.Bound("numeric_parameters", "0 1 2 2.5 2^53 2^53+1")
+	r.Bound("numeric_parameters", "0 1 2 2.5 2^53 2^53+1 -2 -2.5 -(2^53+1) MaxInt64 MinInt64; int inputs also -2 -3 -(2^53+1) MaxInt64 MaxInt64-1 MinInt64 MinInt64+1")
 	r.Rule("W: every validator (type name x <=2 constraints, nesting <=2) x every input value x {make-validator, deftype}, outcome compared with the reference evaluator of the documented meaning; " +
 		"M: every malformed core x every embedding context, built and (if it builds) validated against every input; " +
 		"twins: every JSON-decoded / symbol-keyed input against its lisp-built / string-keyed counterpart. " +
